@@ -20,6 +20,16 @@ def c05Handlers : List (String × Handler) := [
   ("tranname", fun (a : List String) => match reqOf a with
     | some r => r.tranName
     | none => "bad-op"),
+  -- place <item hex>… : kind of the folder the path items address (after joining and cleaning all of them)
+  ("place", fun (a : List String) => placeStr (placeOfItems (a.map hexb))),
+  -- placeraw <path field hex> : the same from the raw field bytes (FilePath.Write decode first)
+  ("placeraw", fun (a : List String) => match a with
+    | [d] => match pathDecode (hexb d) with
+      | .ok items => placeStr (placeOfItems items)
+      | _ => "badPath"
+    | _ => "bad-op"),
+  -- folder <item hex>… : the addressed folder's components
+  ("folder", fun (a : List String) => bytesList (addressedFolder (a.map hexb))),
   ("isset", fun (a : List String) => match a with
     | [b, i] => toString ((bitmapOf b).isSet (num i))
     | _ => "bad-op")
